@@ -36,3 +36,68 @@ pub use group::{group_files, write_report, FileGroup, FileSubGroup};
 pub use path::Path;
 
 const TIMESTAMP_FMT: &str = "%Y-%m-%d %H:%M:%S.%3f %z";
+
+/// Verification hooks: re-exports the public items of the otherwise private modules
+/// so that an external harness can call them. Compiled only with `--cfg fclones_verif`.
+#[cfg(fclones_verif)]
+#[allow(unused_imports)]
+pub mod verif_api {
+    pub const TIMESTAMP_FMT: &str = crate::TIMESTAMP_FMT;
+    pub mod arg {
+        pub use crate::arg::*;
+    }
+    pub mod cache {
+        pub use crate::cache::*;
+    }
+    pub mod dedupe {
+        pub use crate::dedupe::*;
+    }
+    pub mod device {
+        pub use crate::device::*;
+    }
+    pub mod error {
+        pub use crate::error::*;
+    }
+    pub mod file {
+        pub use crate::file::*;
+    }
+    pub mod group {
+        pub use crate::group::*;
+    }
+    pub mod hasher {
+        pub use crate::hasher::*;
+    }
+    pub mod lock {
+        pub use crate::lock::*;
+    }
+    pub mod path {
+        pub use crate::path::*;
+    }
+    pub mod pattern {
+        pub use crate::pattern::*;
+    }
+    pub mod reflink {
+        pub use crate::reflink::*;
+    }
+    pub mod regex {
+        pub use crate::regex::*;
+    }
+    pub mod rlimit {
+        pub use crate::rlimit::*;
+    }
+    pub mod selector {
+        pub use crate::selector::*;
+    }
+    pub mod semaphore {
+        pub use crate::semaphore::*;
+    }
+    pub mod transform {
+        pub use crate::transform::*;
+    }
+    pub mod util {
+        pub use crate::util::*;
+    }
+    pub mod walk {
+        pub use crate::walk::*;
+    }
+}
